@@ -103,13 +103,16 @@ LINKS = {
     },
     "C14": {
         "modules": ["RtrProofs.CLinkMisc"],
-        "modules_extra": ["RtrProofs.CLinkErr", "RtrProofs.CLinkRecv", "RtrProofs.CLinkSync", "RtrProofs.CLinkIo"],
+        "modules_extra": ["RtrProofs.CLinkErr", "RtrProofs.CLinkRecv", "RtrProofs.CLinkSync", "RtrProofs.CLinkIo", "RtrProofs.CLinkFooter"],
         "theorems": ["Rtr.CLink.Err.rtr_send_error_pdu_eq", "Rtr.CLink.Err.error_report_never_for_error_report", "Rtr.CLink.Err.error_report_one_call", "Rtr.CLink.Err.error_report_length_consistent", "Rtr.CLink.Err.error_report_echo_exact", "Rtr.CLink.Err.error_report_no_uninitialised_byte", "Rtr.CLink.Err.rtr_send_pdu_eq", "Rtr.CLink.Err.send_pdu_sends", "Rtr.CLink.Err.send_pdu_caller_unchanged", "Rtr.CLink.Err.rtr_send_error_pdu_from_host_eq", "Rtr.CLink.Err.from_host_header_bytes",
                      "Rtr.CLink.Recv.receive_pdu_echo", "Rtr.CLink.Recv.receive_pdu_buffer_on_error", "Rtr.CLink.serial_query_contents", "Rtr.CLink.reset_query_contents",
                      "Rtr.CLink.lrtr_convert_long_eq", "Rtr.CLink.lrtr_convert_short_eq",
+                     "Rtr.CLink.Footer.footer_fixed", "Rtr.CLink.Footer.footer_ipv6", "Rtr.CLink.Footer.footer_error_to_network",
+                     "Rtr.CLink.Footer.footer_error_to_host", "Rtr.CLink.Footer.swapWords_involutive",
+                     "Rtr.CLink.Footer.footer_fixed_round_trip", "Rtr.CLink.Footer.footer_error_round_trip",
                      "Rtr.CLink.tr_send_all_eq", "Rtr.CLink.tr_send_all_of_world", "Rtr.CLink.tr_send_all_chunks", "Rtr.CLink.tr_send_all_timeouts"],
         "functions": ["rtr_send_error_pdu", "rtr_send_pdu", "rtr_send_error_pdu_from_host", "rtr_receive_pdu", "rtr_send_serial_query", "rtr_send_reset_query", "lrtr_convert_long", "lrtr_convert_short", "rtr_pdu_convert_header_byte_order", "rtr_pdu_header_to_host_byte_order",
-                      "tr_send_all"],
+                      "rtr_pdu_convert_footer_byte_order", "tr_send_all"],
         "ops": "conv+io+proto",
     },
 }
@@ -254,6 +257,22 @@ def ops_conv(r, n):
     for ty in (0, 4, 9, 10, 255):
         for _ in range(6):
             ops.append("header_to_host %02x%02x%04x%s" % (r.choice([0, 1]), ty, r.randrange(65536), be32(r.choice(edge32(r)))))
+    # the body conversion: every type, both directions, objects shorter / exactly / longer than the fields need,
+    # Error Reports whose encapsulated length points inside, at the end and beyond the object
+    full = {0: 12, 1: 12, 2: 8, 3: 8, 4: 20, 6: 32, 7: 24, 8: 8, 9: 123, 10: 40, 5: 8, 11: 8, 255: 8}
+    for ty, size in sorted(full.items()):
+        for d in (0, 1):
+            for ln in sorted(set([2, 8, 11, 12, 16, 19, 20, 23, 24, 28, 31, 32, size, size + 5])):
+                for _ in range(2):
+                    body = [r.randrange(256) for _ in range(ln)]
+                    body[0] = r.choice([0, 1, 1, 2])
+                    body[1] = ty
+                    if ty == 10 and ln >= 12:
+                        enc = r.choice([0, 8, ln - 16 if ln >= 16 else 0, ln - 12, ln, r.randrange(0, 64), 2 ** 32 - 4, 2 ** 31])
+                        enc &= 0xffffffff
+                        w = [(enc >> 24) & 255, (enc >> 16) & 255, (enc >> 8) & 255, enc & 255]
+                        body[8:12] = w if d == 1 else list(reversed(w))
+                    ops.append("footer %d %s" % (d, bytes(body).hex()))
     return ops
 
 
